@@ -1,6 +1,8 @@
 """C18 - CIDR expansion matches exactly the addresses of the network."""
 from __future__ import annotations
 
+import json
+
 from ..common import Check, drive, replay as _replay, uncps, cps
 from ..serial import outcome
 
@@ -17,7 +19,7 @@ def _backend():
     return _B
 
 
-def _history(text):
+def _history(text, mirror_only=False):
     """What the process has expanded BEFORE the observation is made (the patterns of a network are a function of the
     network alone): the network of the same number and prefix length in the other address family, and the networks one
     bit shorter and one bit longer at the same address. Their results are not judged."""
@@ -30,12 +32,10 @@ def _history(text):
         return
     n, p = int(net.network_address), net.prefixlen
     before = []
-    if net.version == 4:
-        before.append(ipaddress.IPv6Network((n, p), strict=False))
-    elif n < 2**32 and p <= 32:
-        before.append(ipaddress.IPv4Network((n, p), strict=False))
+    if n == 0 and p <= 32:  # (the only networks of the two families that have number AND prefix length in common)
+        before.append(ipaddress.IPv6Network((0, p)) if net.version == 4 else ipaddress.IPv4Network((0, p)))
     cls = type(net)
-    for q in (p - 1, p + 1):
+    for q in (() if mirror_only else (p - 1, p + 1)):
         if 0 <= q <= net.max_prefixlen:
             before.append(cls((n, q), strict=False))
     for b in before:
@@ -51,7 +51,7 @@ def drive_case(case):
     from sigma.rule.detection import SigmaDetectionItem
 
     text = uncps(case["text"])
-    _history(text)
+    _history(text, bool(case.get("newproc")))
     o = {"id": case["id"], "kind": case["kind"], "net": case["net"], "p": case["p"], "text": case["text"]}
     o["expand"] = outcome(lambda: [cps(p) for p in SigmaCIDRExpression(text).expand()])
     o["item"] = outcome(lambda: [cps(str(v)) for v in SigmaDetectionItem.from_mapping("f|cidr", text).value])
@@ -64,6 +64,34 @@ def drive_case(case):
 
     o["native"] = outcome(native)
     return o
+
+
+NEWPROC = 1_000_000
+
+
+def _one_from_stdin():
+    import sys
+
+    print(json.dumps(drive_case(json.loads(sys.stdin.read()))))
+
+
+def _drive_each_in_new_process(cases):
+    """One interpreter per case: nothing but the case's own history has happened in the process."""
+    import os, subprocess, sys
+    from concurrent.futures import ThreadPoolExecutor
+    from .. import tlc
+    from ..common import VERIF, REPO
+
+    def one(c):
+        p = subprocess.run([sys.executable, "-c", "from harness.props.c18 import _one_from_stdin; _one_from_stdin()"],
+                           input=json.dumps(c), capture_output=True, text=True, cwd=VERIF,
+                           env=dict(os.environ, PYTHONPATH=VERIF + os.pathsep + REPO))
+        if p.returncode != 0:
+            raise tlc.MachineryError("interpreter for a single case failed: " + p.stderr[-1000:])
+        return json.loads(p.stdout.strip().splitlines()[-1])
+
+    with ThreadPoolExecutor(max_workers=min(16, os.cpu_count() or 4)) as ex:
+        return list(ex.map(one, cases))
 
 
 def _pretty(o):
@@ -79,6 +107,11 @@ def run(tier: str, seed: int) -> int:
     chk.model_check("MC_Cidr")
     cases = chk.generate("Gen_C18", shards=[1, 2, 3])
     obs = drive("harness.props.c18", "drive_case", cases)
+    # the all-zero networks once more, each in an interpreter of its own in which nothing but the other family's network
+    # of the same number and length was expanded before
+    twins = [dict(c, id=c["id"] + NEWPROC, newproc=1) for c in cases if c["kind"] != "bad" and not any(c["net"]) and c["p"] <= 32]
+    cases = cases + twins
+    obs += _drive_each_in_new_process(twins)
     verdicts = chk.judge("Judge_C18", obs)
     from .. import corrupt as _corrupt
 
